@@ -1,0 +1,80 @@
+/* VerifHooks.h
+ * Instrumentation points used by external runtime monitors. Everything in
+ * here is compiled only when LIBCSD_VERIF is defined; otherwise the macros
+ * expand to nothing and no symbol is emitted.
+ */
+
+#ifndef _VERIFHOOKS_H
+#define _VERIFHOOKS_H
+
+#ifdef LIBCSD_VERIF
+
+#include <atomic>
+#include <cstddef>
+
+namespace libcsd_verif {
+
+/* Initial capacity unit of the growable text buffers (MEMALLOC). */
+inline std::atomic<size_t> &memalloc_ref() {
+  static std::atomic<size_t> v{32768};
+  return v;
+}
+
+inline size_t memalloc() {
+  size_t v = memalloc_ref().load(std::memory_order_relaxed);
+  return v ? v : 1;
+}
+
+/* Number of Reallocate() calls performed so far. */
+inline std::atomic<size_t> &realloc_count() {
+  static std::atomic<size_t> v{0};
+  return v;
+}
+
+/* Schedule point: (point id, two integer arguments). */
+typedef void (*point_fn)(int id, long a, long b);
+
+inline std::atomic<point_fn> &point_ref() {
+  static std::atomic<point_fn> f{nullptr};
+  return f;
+}
+
+inline void point(int id, long a, long b) {
+  point_fn f = point_ref().load(std::memory_order_acquire);
+  if (f)
+    f(id, a, b);
+}
+
+enum {
+  PT_POOL_ENQUEUED = 1,   // add_task: task is in the queue, not yet notified
+  PT_POOL_NOTIFIED = 2,   // add_task: after notify_all
+  PT_POOL_STOP_SET = 3,   // stop_all_workers: flags set, not yet notified
+  PT_POOL_STOP_DONE = 4,  // stop_all_workers: after notify_all
+  PT_WORKER_POP = 5,      // worker popped a task (a = worker id)
+  PT_WORKER_TASK_BEGIN = 6,
+  PT_WORKER_TASK_END = 7,
+  PT_WORKER_EXIT = 8,
+  PT_BLOCK_QUEUED = 20,   // a = block index
+  PT_BLOCK_BEGIN = 21,
+  PT_BLOCK_BUILT = 22,
+  PT_BLOCK_STORED = 23,
+  PT_BLOCK_WAIT_DONE = 24, // a = parts_done, b = parts.size()
+  PT_BLOCK_RETURN = 25
+};
+
+} // namespace libcsd_verif
+
+#define MEMALLOC (libcsd_verif::memalloc())
+#define LIBCSD_VERIF_POINT(id, a, b)                                           \
+  libcsd_verif::point((libcsd_verif::id), (long)(a), (long)(b))
+#define LIBCSD_VERIF_COUNT_REALLOC()                                           \
+  libcsd_verif::realloc_count().fetch_add(1, std::memory_order_relaxed)
+
+#else
+
+#define LIBCSD_VERIF_POINT(id, a, b) ((void)0)
+#define LIBCSD_VERIF_COUNT_REALLOC() ((void)0)
+
+#endif /* LIBCSD_VERIF */
+
+#endif /* _VERIFHOOKS_H */
